@@ -452,6 +452,25 @@ def extra_configs(prop, tier, seed):
                          hyper={'n_trials': 1 + j_ % 3} if kind == 'ABC' else {}, store_best_only=False)
                 c['lb'], c['ub'] = runlevel.make_box(rng, 'wide', nv)
                 extra.append(c)
+    if prop in ('C20', 'C02'):
+        # a lattice start: positions assigned as integer-typed arrays before the task (what is stored later is what was computed)
+        rng = _random.Random(seed * 89 + 61)
+        pool = [c for c in runlevel.gen_configs('thorough', seed + 251) if c['space'] == 'search']
+        for kind in ('PSO', 'AIWPSO', 'RPSO', 'HC', 'ABC', 'CS', 'FPA', 'HS'):
+            for c in [c for c in pool if c['kind'] == kind][:1 if tier == 'quick' else 4]:
+                nv = max(c['n_vars'], 2)
+                extra.append(dict(c, hook='observer', adv=0.0, n_iter=6, n_agents=max(c['n_agents'], 5), n_vars=nv, box='wide', lb=[-10.0] * nv,
+                                  ub=[10.0] * nv, objective='sphere', hyper={}, store_best_only=False, int_start=True))
+    if prop == 'C20':
+        # the greedy kinds on a hypercomplex space with real bounds far from the unit box (the usual set-up: the bounds are only
+        # consumed by span inside the objective), long enough for an out-of-box trial to be a matter of course
+        rng = _random.Random(seed * 97 + 67)
+        pool = [c for c in runlevel.gen_configs('thorough', seed + 261) if c['space'] == 'hyper']
+        for kind in ('ABC', 'CS', 'FPA', 'HS', 'IHS'):
+            for c in [c for c in pool if c['kind'] == kind][:1 if tier == 'quick' else 4]:
+                nv = max(c['n_vars'], 2)
+                extra.append(dict(c, hook='observer', adv=0.0, n_iter=12, n_agents=max(c['n_agents'], 8), n_vars=nv, n_dims=max(c['n_dims'], 2), box='wide',
+                                  lb=[-10.0] * nv, ub=[10.0] * nv, objective='outside', hyper={}, store_best_only=False))
     if prop == 'C20':
         # greedy kinds on objectives whose unconstrained optimum lies outside the box: a trial accepted on an
         # out-of-box value would be clipped and re-evaluated to something worse
